@@ -29,11 +29,24 @@ ASSUMPTIONS = ["faults at the restoring operations themselves (chdir back, remov
                "the sandbox runs as root, so permission faults are injected rather than provoked"]
 
 
+SNAP_ROOT = [None]
+# names a call is documented to write: <step>.<keyid8>.link, .<step>.<keyid8>.link-unfinished, <inspection>.link
+OUTPUT_NAME = __import__("re").compile(r"^\.?[^/]*\.link(-unfinished)?$")
+
+
 def snapshot():
     import in_toto.settings as st
+    files = []
+    root = SNAP_ROOT[0]
+    if root:
+        for sub in ("work", "base"):
+            for base, dirs, names in os.walk(os.path.join(root, sub)):
+                for n in dirs + names:
+                    files.append(os.path.relpath(os.path.join(base, n), root))
     return {"cwd": os.getcwd(),
             "settings": {k: repr(getattr(st, k)) for k in dir(st) if k.isupper()},
-            "temp": sorted(os.listdir(tempfile.gettempdir()))}
+            "temp": sorted(os.listdir(tempfile.gettempdir())),
+            "files": sorted(files)}
 
 
 def setup_tree(root):
@@ -149,6 +162,7 @@ def run_once(name, root, fault_at=None):
         p = os.path.join(root, "tmp", f)
         shutil.rmtree(p, ignore_errors=True) if os.path.isdir(p) else os.remove(p)
     saved = {k: getattr(st, k) for k in dir(st) if k.isupper()}
+    SNAP_ROOT[0] = root
     cwd0 = os.getcwd()
     old_tmp = tempfile.tempdir
     tempfile.tempdir = os.path.join(root, "tmp")
@@ -280,9 +294,15 @@ def to_program(trace, inspection=False):
     return prog, kinds
 
 
+def leftovers(before, after):
+    """Files that exist after the call, did not exist before, and are not one of the call's documented outputs."""
+    return [f for f in after.get("files", []) if f not in set(before.get("files", []))
+            and not OUTPUT_NAME.match(os.path.basename(f))]
+
+
 def restored(before, after):
     return {"cwd": before["cwd"] == after["cwd"], "settings": before["settings"] == after["settings"],
-            "temp": before["temp"] == after["temp"]}
+            "temp": before["temp"] == after["temp"], "no_leftover_files": not leftovers(before, after)}
 
 
 def run_shape(name):
@@ -326,7 +346,7 @@ def run_shape(name):
                     res.fail("oracle", {"op": "effects", "shape": name, "fault": k, "at": trace[k][0]},
                              {"why": "process state not restored after a fault at operation %d (%s): the call %s" % (
                                  k, trace[k][0], "raised " + raised_k if raised_k else "returned"),
-                              "restored": rk, "cwd_after": a["cwd"], "temp_after": a["temp"],
+                              "restored": rk, "cwd_after": a["cwd"], "temp_after": a["temp"], "leftover_files": leftovers(b, a),
                               "settings_changed": {x: (b["settings"][x], a["settings"][x]) for x in b["settings"]
                                                    if b["settings"][x] != a["settings"][x]}})
                 if not agreed:
